@@ -398,7 +398,11 @@ impl Net {
                 self.hosts[p].pending.insert(*id, r.clone());
             }
         }
-        for n in &out.next {
+        // the interpreter dedups next peers through a HashSet, so their order differs between processes:
+        // deliver in a canonical order to keep histories replayable
+        let mut next_sorted: Vec<&String> = out.next.iter().collect();
+        next_sorted.sort();
+        for n in next_sorted {
             if let Some(q) = self.peer_index_by_id(n) {
                 self.inflight.push(Message { to: q, from: p, data: out.data.clone() });
             }
